@@ -34,7 +34,8 @@ def gen_case(seed, i, nvar):
     rng = random.Random(stable_hash(seed, ID, i))
     cfg = gen.gen_cfg(rng, allow_cache=False)
     nroots = rng.choice([1, 2, 3])
-    world, roots = gen.gen_world(rng, cfg, nroots=nroots, hostile=rng.random() < 0.3, max_files=rng.choice([12, 24, 40]),
+    wide = rng.random() < 0.2       # dozens of entries of one size: batching by pool size shows only on big classes
+    world, roots = gen.gen_world(rng, cfg, nroots=nroots, hostile=rng.random() < 0.3, max_files=48 if wide else rng.choice([12, 24, 40]), wide=wide,
                                  families=rng.choice([1, 1, 2, 3, 4, 6]), min_len=0)   # few families = many entries of one size
     gflags = []
     if nroots >= 2 and rng.random() < 0.25:
@@ -45,10 +46,11 @@ def gen_case(seed, i, nvar):
         gflags.append("-H")
     if rng.random() < 0.2:
         gflags += ["--min", "0"]
-    if "--isolate" not in gflags and rng.random() < 0.3:
+    if "--isolate" not in gflags and (wide or rng.random() < 0.3):
         # overlapping / repeated input paths: every path below is reached twice
         subs = [e["p"] for e in world.entries if e["t"] == "d" and "/" in e["p"]]
-        roots = list(roots) + [rng.choice(subs) if subs and rng.random() < 0.6 else rng.choice(roots)]
+        roots = list(roots)
+        roots.insert(rng.randint(0, len(roots)), rng.choice(subs) if subs and rng.random() < 0.6 else rng.choice(roots))
         nroots = len(roots)
     variants = []
     for v in range(nvar):
